@@ -75,6 +75,8 @@ def traces_of(atoms):
     try:
         toks = [tuple(int(x) for x in t) for t in utoken.scan(text)]
     except Exception as e:                                          # noqa: BLE001
+        if W.harness_fault(e):
+            raise W.HarnessFault(W.harness_fault(e))
         return [], 0, [("scan", "%s: %s" % (type(e).__name__, e))]
     out = [make_trace(atoms, text, toks, "scan")]
     same = 0
@@ -84,6 +86,8 @@ def traces_of(atoms):
         try:
             ctoks = [(t.type, int(t.start), int(t.len)) for t in utoken.tokenize(text)]
         except Exception as e:                                      # noqa: BLE001
+            if W.harness_fault(e):
+                raise W.HarnessFault(W.harness_fault(e))
             # tokenize looks at the text of the tokens (entities, tag names): with spans that do not
             # fit the text it may raise.  The scan trace above carries the verdict; this is recorded.
             excs.append(("tokenize", "%s: %s" % (type(e).__name__, e)))
